@@ -226,6 +226,9 @@ fn gen_recs(rng: &mut Rng, big: bool) -> Vec<RecSpec> {
             1 => 2,
             2 | 3 => 1 + rng.below(8),
             4 => *rng.pick(&[60usize, 70, 80]),
+            // lines longer than the iterator's 512-base buffer (unwrapped / long-wrap FASTA): fill_buffer then asks
+            // read_line for 512-base pieces of one line (seeded defect C12-5 needed width >= 513)
+            5 => *rng.pick(&[511usize, 512, 513, 514, 600, 777, 1023, 1024, 1025, 1500]),
             _ => 1 + rng.below(80),
         };
         let len = if big && i == 0 {
@@ -241,7 +244,7 @@ fn gen_recs(rng: &mut Rng, big: bool) -> Vec<RecSpec> {
                 2 => w * (1 + rng.below(4)),  // last line full
                 3 => w * (1 + rng.below(4)) + 1,
                 4 => rng.below(w + 1),
-                _ => rng.below(5 * w + 2).min(400),
+                _ => rng.below(5 * w + 2).min(if w > 400 { 4 * w } else { 400 }),
             }
         };
         // a sequence in which neighbouring positions differ (a shifted slice is then never equal to the right one)
